@@ -17,7 +17,9 @@ def run(chk):
     if chk.tier == "quick":
         runs = [["pred", "0,1,2", "2"]]
     else:
-        runs = [["pred", "0,1,2", "2"], ["pred", "0,1,2,3", "2"], ["pred", "0,5", "3"], ["pred", "-1,1", "3"]]
+        # a third closure level is out of reach (the pool squares at every level: > 10**9 applications already
+        # with two constants), so thorough widens the constant sets instead
+        runs = [["pred", "0,1,2", "2"], ["pred", "0,1,2,3", "2"], ["pred", "-1,0,1", "2"], ["pred", "0,5", "2"], ["pred", "-2,0,3,7", "2"], ["pred", "0,1,2,3,4", "2"]]
     for i, a in enumerate(runs):
         vlib.standard_walk(chk, exe, a, key_of,
                            "pool = atoms (True, False, I∘c for ∘ in ==,!=,>=,<=,>,<, c in constants) closed `levels-1` times under Predicate::{and,or,invert}; "
